@@ -333,6 +333,8 @@ def post(ctx, args, kind, value):
         if d.kind in c20.EARLY:
             n_calls = d.d             # the run ends before this document's executor is called — after its directories were created
             break
+    if any(d.kind == "unparsable" for d in docs):
+        n_calls = 0                   # documents are parsed before anything is run
     if len(calls) != n_calls:
         return False
     works = []
